@@ -85,6 +85,17 @@ CLAIMED['C03'] = dict(
    note=NUM_NOTE, technique="Coq proof (loop-invariant refinement, Reals algebra, finite-sum invariance) + vm_compute correspondence on every decision path",
    ref="DESIGN.md section 3, C03")
 
+CLAIMED['C17'] = dict(
+   text="Theorems: the betas setter returns the input sorted non-increasing, same multiset, all in [0,1], and refuses anything outside (reals); "
+        "at construction and after any number of DynamicalAnnealer calls, for every acceptance history/tau/nu and every numeric instance, the "
+        "beta of every level equals the beta its swaps use (coherence invariant by induction over calls); one call keeps both ends and the "
+        "number of levels and, with hottest beta 0, every rebuilt beta lies strictly between 0 and its colder neighbour (order and range kept); "
+        "make_betas_ladder stays in [1/maxtemp,1]. Float instance run against the real setter, setup_annealing, every annealer call of real "
+        "samplers and make_betas_ladder; level betas vs ladder vs sampler.betas compared after every iteration.",
+   note=NUM_NOTE + "Ladders with repeated betas (log of a zero temperature gap) are outside the order theorem's premises.",
+   technique="Coq proof (insertion-sort correctness, invariant by induction over annealer calls, Reals inequalities) + vm_compute correspondence",
+   ref="DESIGN.md section 3, C17")
+
 PENDING_REASON = "not yet claimed: model/theorems for this property are still being built (see DESIGN.md section 3); nothing is asserted about it"
 
 def main():
